@@ -89,6 +89,18 @@ let () =
          let r = serve (n_of_int (int_of_string maxbuf)) cfg st envf (bytes_of_hex hex) in
          List.iter (fun d -> print_string (dispatch_s d); print_char ' ') r.r_log;
          Printf.printf "END=%s REST=%s\n" (ending_s r.r_end) (md5 r.r_rest)
+       | ["first"; maxbuf; hs; df; offers_default; hex] ->
+         (* checkInitialMessage on the first frame: who is it offered to?  answer: called=<0|1> res=<ok|err> alloc=<n> *)
+         let hl = ints hs in
+         let cfg = { has_handler = (fun t -> List.mem (int_of_n t) hl); has_default = (df = "1");
+                     never_reply = (fun _ -> false) } in
+         let fl = { data_checks_size_first = true; gsv_uses_checked_read = true; neg_aborts_on_loop_end = true;
+                    close_wait_only_if_sent = true; first_offers_default = (offers_default = "1") } in
+         (* the decoder outcome does not influence who is offered the message: any total decoder will do *)
+         let dd = { dec_ren = (fun _ -> DErr); dec_errmsg = (fun _ -> DErr); dec_gsvresp = (fun _ -> DErr);
+                    dec_spvresp = (fun _ -> DErr); dec_ccr = (fun _ -> DErr); dec_llrpstatus = (fun _ -> DErr) } in
+         let ci = check_initial (n_of_int (int_of_string maxbuf)) cfg fl dd (bytes_of_hex hex) in
+         Printf.printf "called=%s alloc=%d\n" (b01 ci.ci_handler_called) (int_of_n ci.ci_alloc)
        | [""] -> ()
        | _ -> print_endline "error: bad request")
     done
